@@ -17,6 +17,7 @@ import Penguin.Lemmas.LinkGlue
 import Penguin.Lemmas.MuxReach
 import Penguin.Lemmas.MuxWake
 import Penguin.Lemmas.MuxMono
+import Penguin.Lemmas.MuxEnd
 
 namespace Penguin.C08
 open Penguin Penguin.Mux
@@ -187,6 +188,18 @@ theorem every_stream_closed_after_end (o : Opts) (ops : List Mux.Op)
     cannot miss it). -/
 theorem reachable_wellformed (o : Opts) (ops : List Mux.Op) : WF (runOps { opts := o } ops) :=
   (reachable_inv o ops).1
+
+/-- The end of the connection is acted on at once: a running endpoint whose receive loop is not
+    waiting on a full accept / bind queue finishes its task within the very stimulus that delivers the
+    peer's Close, the end of the source, a transport error or an undecodable message — whatever is
+    pending is resolved then (`error_resolves_everything`, `source_end_resolves_everything`), without
+    the application having to do anything. -/
+theorem end_is_acted_on_at_once (e : EP) (w : WsIn)
+    (hd : e.dead = false) (hdr : e.draining = none) (hc : e.closing = none) (hp : e.park = none)
+    (hi : e.inbox = []) (hs : e.srcEnded = false)
+    (hw : w = .msg .close ∨ w = .eof ∨ w = .err ∨ ∃ b, w = .bad b) :
+    (applyOp e (.deliver w)).1.dead = true :=
+  end_acted_on_at_once e w hd hdr hc hp hi hs hw
 
 /-- "Every LATER operation completes": the end of the connection is final. Once the task has
     finished and the outbound queue is closed, they stay so through every further history of
